@@ -84,6 +84,24 @@ func ruleActiveFlushed(r *Run, rule string, k *storeKind) {
 		})
 		r.Check(ok, rule, "active:rotateIfNotEmpty", w.Pos(fn.Pos())+" "+w.Name(fn), "rotation is skipped only for an active memtable with count() == 0", "the rotation guard is not `count() > 0`")
 	}
+	// the counter only grows: every Add on it adds the constant 1 (a decrement — on a removal that may even be rejected —
+	// lets a non-empty memtable read as empty, and Flush then skips it)
+	for _, fn := range w.Funcs {
+		cm := NewCanon(w)
+		for _, call := range callsTo(fn, "atomic.Uint32).Add") {
+			if !strings.HasSuffix(cm.S(call.Call.Args[0]), ".numDocs") || namedTypeName(fieldOwner(call.Call.Args[0])) != "memtable" {
+				continue
+			}
+			arg := cm.S(call.Call.Args[1])
+			r.Check(arg == "c(1)", rule, "active:count:monotone:"+w.Name(fn), w.InstrPos(call)+" "+w.Name(fn), "the memtable's document counter is only incremented by 1", "the memtable's document counter is changed by "+arg+": count() == 0 no longer means 'holds no documents'")
+		}
+		for _, d := range deferredCalls(fn) {
+			if strings.HasSuffix(calleeName(d.Common()), "atomic.Uint32).Add") && strings.HasSuffix(cm.S(d.Common().Args[0]), ".numDocs") && namedTypeName(fieldOwner(d.Common().Args[0])) == "memtable" {
+				arg := cm.S(d.Common().Args[1])
+				r.Check(arg == "c(1)", rule, "active:count:monotone:"+w.Name(fn), w.InstrPos(d)+" "+w.Name(fn), "the memtable's document counter is only incremented by 1", "the memtable's document counter is changed by "+arg+" (deferred): count() == 0 no longer means 'holds no documents'")
+			}
+		}
+	}
 	for _, m := range []string{"(*memtable).add", "(*memtable).addWithID"} {
 		fn := w.Fn(m)
 		if fn == nil {
@@ -970,6 +988,44 @@ func ruleOwnership(r *Run, p string, k *storeKind) {
 			}
 		}
 		r.Check(rm, p+".RELEASE", "lock:release-removes", w.Pos(rel.Pos())+" "+w.Name(rel), "release removes the lock file", "release does not remove the lock file")
+		// the unlink's failure is reported unless the file is already gone: error ⇔ err ≠ nil ∧ ¬IsNotExist(err)
+		for _, call := range callsTo(rel, "os.Remove") {
+			rows, trunc := regionPaths(call.Block(), func(b *ssa.BasicBlock) bool { return false }, func(cond ssa.Value) (string, bool) {
+				if bo, ok := cond.(*ssa.BinOp); ok && (bo.Op == token.NEQ || bo.Op == token.EQL) {
+					isNil := func(y ssa.Value) bool { k, ok := y.(*ssa.Const); return ok && k.Value == nil }
+					if (bo.X == ssa.Value(call) && isNil(bo.Y)) || (bo.Y == ssa.Value(call) && isNil(bo.X)) {
+						return "ERR", bo.Op == token.EQL
+					}
+				}
+				if c2, ok := cond.(*ssa.Call); ok && (calleeName(c2.Common()) == "os.IsNotExist" || calleeName(c2.Common()) == "errors.Is") {
+					return "GONE", false
+				}
+				return "", false
+			}, 1)
+			if trunc || len(rows) == 0 {
+				r.Und(p+".RELEASE", "lock:release-error-table", w.InstrPos(call)+" "+w.Name(rel), "paths after the unlink could not be enumerated")
+				continue
+			}
+			bad, states := tableCheck([]string{"ERR", "GONE"}, rows, func(pr pathRow) string {
+				if pr.P.End == EndReturn && pathErrClass(pr.P) == ErrNonNil {
+					return "error"
+				}
+				return "ok"
+			}, func(a map[string]bool) string {
+				if !a["ERR"] && a["GONE"] {
+					return "-"
+				}
+				if a["ERR"] && !a["GONE"] {
+					return "error"
+				}
+				return "ok"
+			})
+			if len(bad) > 0 {
+				r.Bad(p+".RELEASE", "lock:release-error-table", w.InstrPos(call)+" "+w.Name(rel), truncList(bad, 3)+" — a failed unlink is swallowed: Close reports success while LOCK stays on disk")
+			} else {
+				r.Ok(p+".RELEASE", "lock:release-error-table", w.InstrPos(call)+" "+w.Name(rel), fmt.Sprintf("%d states: release fails ⇔ the unlink failed for another reason than 'already gone'", states))
+			}
+		}
 	}
 	// constructor: after a successful acquire, every error return passes releaseLock; nothing but MkdirAll precedes acquire
 	{
@@ -1014,6 +1070,68 @@ func ruleOwnership(r *Run, p string, k *storeKind) {
 					}
 				}
 			})
+			// a refused acquisition (and any failure of the constructor) changes nothing else in the directory: after the
+			// acquire call no file-system mutation is reachable except through the release routine
+			var fail *ssa.BasicBlock
+			for _, ref := range *acqCall.Referrers() {
+				if bo, ok := ref.(*ssa.BinOp); ok {
+					for _, r2 := range *bo.Referrers() {
+						if iff, ok := r2.(*ssa.If); ok {
+							fail = iff.Block().Succs[0]
+							if bo.Op == token.EQL {
+								fail = iff.Block().Succs[1]
+							}
+						}
+					}
+				}
+			}
+			if fail != nil {
+				var mutates func(g *ssa.Function, depth int) string
+				mutates = func(g *ssa.Function, depth int) string {
+					out := ""
+					if g == nil || g == rel || g == acq || depth > 2 {
+						return ""
+					}
+					allInstrs(g, func(in ssa.Instruction) {
+						if call, ok := in.(ssa.CallInstruction); ok {
+							cn := calleeName(call.Common())
+							if fsMutators[cn] {
+								out = cn
+							}
+							if h := staticCallee(call.Common()); h != nil && h.Pkg == w.SPkg && h != g {
+								if m := mutates(h, depth+1); m != "" {
+									out = m
+								}
+							}
+						}
+					})
+					return out
+				}
+				bad := ""
+				hit := reachAvoidAt(fail, 0, func(in ssa.Instruction) bool {
+					call, ok := in.(ssa.CallInstruction)
+					if !ok {
+						return false
+					}
+					cn := calleeName(call.Common())
+					if fsMutators[cn] {
+						bad = cn
+						return true
+					}
+					if h := staticCallee(call.Common()); h != nil && h.Pkg == w.SPkg {
+						if m := mutates(h, 0); m != "" {
+							bad = m + " (in " + w.Name(h) + ")"
+							return true
+						}
+					}
+					return false
+				}, func(in ssa.Instruction) bool { _, isRet := in.(*ssa.Return); return isRet })
+				site := w.Pos(ctor.Pos()) + " " + w.Name(ctor)
+				if hit != nil {
+					site = w.InstrPos(hit) + " " + w.Name(ctor)
+				}
+				r.Check(hit == nil, p+".NOMOD", "lock:refused-changes-nothing", site, "an open that is refused the lock returns without touching the directory", "after the lock was refused the constructor still runs "+bad+": a loser of the race modifies (or deletes) the owner's directory")
+			}
 			r.Check(pre == "", p+".NOMOD", "lock:nothing-before", w.Pos(ctor.Pos())+" "+w.Name(ctor), "only the idempotent MkdirAll precedes the lock acquisition", pre+" modifies the directory before the lock is held")
 		}
 	}
@@ -1152,6 +1270,29 @@ func ruleOwnership(r *Run, p string, k *storeKind) {
 
 func indexFieldOfStore(k *storeKind) string {
 	return indexFieldOf(k.SearchT, k.T)
+}
+
+// fieldOwner: the struct type whose field v addresses (for &x.f), else nil.
+func fieldOwner(v ssa.Value) types.Type {
+	if fa, ok := v.(*ssa.FieldAddr); ok {
+		t := fa.X.Type()
+		if p, ok := t.Underlying().(*types.Pointer); ok {
+			return p.Elem()
+		}
+		return t
+	}
+	return nil
+}
+
+// deferredCalls lists the defer instructions of fn.
+func deferredCalls(fn *ssa.Function) []*ssa.Defer {
+	var out []*ssa.Defer
+	allInstrs(fn, func(in ssa.Instruction) {
+		if d, ok := in.(*ssa.Defer); ok {
+			out = append(out, d)
+		}
+	})
+	return out
 }
 
 // closeGate describes the test-and-set of the closed flag that guards Close.
